@@ -1,14 +1,14 @@
 SPECIFICATION Spec
 CONSTANTS
-  Reqs = {"r1", "r2"}
-  QCap = 1
+  Reqs = {"r1", "a2"}
+  QCap = 2
   FixHandoff = TRUE
   FixSend = TRUE
   FixReader = TRUE
-  Banned = {"r2"}
-  Asking = {}
+  Banned = {}
+  Asking = {"a2"}
   AskAnswersInHand = TRUE
-  BufCap = 3
+  BufCap = 1
   FixFlushOnStop = TRUE
   MaxResets = 1
   WithStop = TRUE
